@@ -2,7 +2,10 @@
 
 package simhook
 
-import "context"
+import (
+	"context"
+	"sync"
+)
 
 // Enabled reports whether the simulation hooks are compiled in.
 const Enabled = true
@@ -89,5 +92,56 @@ func TaskEnd(handle interface{}) {
 			h.TaskPanic(handle, r)
 		}
 		h.TaskEnd(handle)
+	}
+}
+
+// AwaitLock is Await for a lock acquisition whose mutex is given by address (a *sync.Mutex, a
+// *sync.RWMutex, or a pointer to a field holding one of those pointers). The mutex is resolved
+// here, in the calling goroutine; the readiness probe handed to the simulator refers to nothing
+// but the mutex itself. It is what tools that insert probes into sources mechanically use.
+func AwaitLock(point string, addr interface{}, read bool) {
+	h := handler
+	if h == nil {
+		return
+	}
+	var mu *sync.Mutex
+	var rw *sync.RWMutex
+	switch m := addr.(type) {
+	case *sync.Mutex:
+		mu = m
+	case **sync.Mutex:
+		mu = *m
+	case *sync.RWMutex:
+		rw = m
+	case **sync.RWMutex:
+		rw = *m
+	default:
+		return
+	}
+	switch {
+	case mu != nil:
+		h.Await(point, mu, func() bool {
+			if mu.TryLock() {
+				mu.Unlock()
+				return true
+			}
+			return false
+		})
+	case rw != nil && read:
+		h.Await(point, rw, func() bool {
+			if rw.TryRLock() {
+				rw.RUnlock()
+				return true
+			}
+			return false
+		})
+	case rw != nil:
+		h.Await(point, rw, func() bool {
+			if rw.TryLock() {
+				rw.Unlock()
+				return true
+			}
+			return false
+		})
 	}
 }
